@@ -15,19 +15,24 @@ Band == (0 - R * S)..(N * S + R * S)
 NearBorder(p) == \/ p[1] < R * S \/ p[1] >= (N - R) * S \/ p[2] < R * S \/ p[2] >= (N - R) * S
 Inner == <<<<(N \div 2) * S - 1, (N \div 2) * S - 1>>, <<(N \div 2) * S + 2, (N \div 2) * S - 1>>, <<(N \div 2) * S, (N \div 2) * S + 2>>>>
 
-VARIABLES p, k, ig
-vars == <<p, k, ig>>
-Init == /\ p \in {q \in Band \X Band : NearBorder(q)} /\ k \in 1..3 /\ ig \in BOOLEAN
+(* where the offending vertex sits: in a plain triangle, in the shell of a polygon with a hole (the hole comes later and *)
+(* is entirely inside), or in the hole itself (the shell is fine)                                                     *)
+Shapes == {"tri", "shell", "hole"}
+VARIABLES p, k, ig, shape
+vars == <<p, k, ig, shape>>
+Init == /\ p \in {q \in Band \X Band : NearBorder(q)} /\ k \in 1..3 /\ ig \in BOOLEAN /\ shape \in Shapes
 Next == UNCHANGED vars
 Spec == Init /\ [][Next]_vars
 
+Small == <<<<(N \div 2) * S, (N \div 2) * S>>, <<(N \div 2) * S + 1, (N \div 2) * S>>, <<(N \div 2) * S, (N \div 2) * S + 1>>>>
 Poly == [i \in 1..3 |-> IF i = k THEN p ELSE Inner[i]]
-Expect == Outcome(Poly, N, ig)
+AllVertices == IF shape = "tri" THEN Poly ELSE Poly \o Small      \* the second ring is in-grid in either role
+Expect == Outcome(AllVertices, N, ig)
 \* never snapped onto a border pixel: an accepted polygon has its vertex inside, so its pixel is a grid pixel
 AcceptedIsInside == Expect = "snapped" => (PixOf(p)[1] \in 0..(N - 1) /\ PixOf(p)[2] \in 0..(N - 1))
 HalfOpen == /\ (p[1] = 0 /\ p[2] \in 0..(N * S - 1)) => InGrid(p, N)
             /\ (p[1] = N * S) => ~InGrid(p, N)
             /\ (p[2] = N * S) => ~InGrid(p, N)
             /\ (p[1] < 0 \/ p[2] < 0) => ~InGrid(p, N)
-EmitVec == PrintT(<<"VEC", ToJson([p |-> p, k |-> k - 1, ig |-> ig, expect |-> Expect, inside |-> InGrid(p, N)])>>)
+EmitVec == PrintT(<<"VEC", ToJson([p |-> p, k |-> k - 1, ig |-> ig, shape |-> shape, expect |-> Expect, inside |-> InGrid(p, N)])>>)
 =============================================================================
